@@ -179,6 +179,23 @@ int main(int argc, char** argv) {
             else std::printf("F16b: ok\n");
         }
     }
+    if (which == "F17" || which == "all") {
+        // update(h) with an infinite entry zeroes a row of G in the data but does not tell the KKT back end that G changed:
+        // KKT_FULL keeps factorising with the old row. A fresh solver on the same data needs far fewer iterations.
+        M G2(2, 3); G2 << 1, 0, 0, 0, 1, 2;
+        V h0(2); h0 << 0.5, 3;
+        V cc(3); cc << -10, -2, 0.5;
+        V hinf(2); hinf << INF, 3;
+        SparseSolver<double, int, KKTMode::KKT_FULL> a, f;
+        SparseMat<double, int> G2s = G2.sparseView();
+        a.setup(q.Ps(), cc, nullopt, nullopt, G2s, h0); a.solve();
+        a.update(nullopt, nullopt, nullopt, nullopt, nullopt, hinf); Status sa = a.solve();
+        f.setup(q.Ps(), cc, nullopt, nullopt, G2s, hinf); Status sf = f.solve();
+        long ia = (long) a.result().info.iter, i_f = (long) f.result().info.iter;
+        if (sa != sf || ia > 2 * i_f + 2)
+            std::printf("F17: DEFECT after update(h with h[0]=+inf) KKT_FULL keeps the old row of G in its KKT matrix: status %d after %ld iterations, fresh solver status %d after %ld\n", (int) sa, ia, (int) sf, i_f);
+        else std::printf("F17: ok (%ld vs %ld iterations)\n", ia, i_f);
+    }
     if (which == "F9") {
         // sparse: update(A') with the same nnz but a different pattern is accepted; run under ASan
         SparseSolver<double, int> a;
